@@ -39,7 +39,7 @@ def renumber(node):
         if isinstance(n, tuple):
             if n and n[0] == "in":
                 return ("in", n[1], next(cnt))
-            if n and n[0] in ("lit", "const"):
+            if n and n[0] in ("lit", "const", "bound", "null", "full"):
                 return n
             return tuple(go(x) for x in n)
         return n
@@ -552,6 +552,65 @@ def const_pairs():
                     yield "constpair", ("cmp", ("lt",), (ca, cb))
 
 
+def null_full():
+    """Null / Full as one alternative of an if-expression, of a helper with two return statements and of select_with,
+    the other alternative(s) of every vector type / Bit, assigned to a target of the same type and to every wider
+    documented target; Null / Full = all zeros / ones of the TARGET"""
+    NF = (("null",), ("full",))
+    for T in [BIT] + list(vec_types((2, 3))):
+        targets = [None]
+        if V.is_num(T):
+            w = T[1]
+            targets += [(T[0], w + 1), (T[0], w + 3)]
+            if T[0] == "u":
+                targets.append(("s", w + 2))
+        for nf in NF:
+            merges = []
+            for c in (L(BIT), L(BOOL)):
+                for form in ("if", "ifret"):
+                    merges.append((form, c, L(T), nf))
+                    merges.append((form, c, nf, L(T)))
+            for arg in (L(BIT), L(u(2))):
+                dom = list(V.domain(arg[1]))
+                merges.append(("sel", arg, ((dom[0], L(T)),), nf))
+                merges.append(("sel", arg, ((dom[0], nf),), L(T)))
+                merges.append(("sel", arg, ((dom[0], L(T)), (dom[1], nf)), ("null",)))
+                merges.append(("sel", arg, ((dom[0], nf), (dom[1], L(T))), ("full",) if nf[0] == "null" else ("null",)))
+            for m in merges:
+                for dst in targets:
+                    yield "nullfull", (m if dst is None else ("conv", "assign", dst, m))
+
+
+def shared_objects():
+    """ONE nested-slice object bound to a name and used several times in the same expression: plain, through the
+    typed views and inside arithmetic; the uses are concatenated (first use = most significant bits)"""
+    xs = []
+    root = L(bv(5))
+    for t in _slice_ext(root, 5, 2, False):
+        if t[0] == "slice" and t[1][0] == "slice" and V.typeof(t) == bv(2):
+            xs.append(t)
+    for t in _slice_ext(L(u(5)), 5, 3, False):
+        if t[0] == "slice" and t[1][0] == "slice" and t[1][1][0] == "slice" and V.typeof(t) == bv(2) \
+                and t[1][3] > 0 and t[1][1][3] > 0:
+            xs.append(t)
+    xs.append(("part", "lsb", ("part", "msb", root, 4, None), 2, None))
+    xs.append(("part", "msb", ("part", "lsb", root, 4, None), 2, None))
+    B = ("bound", bv(2))
+    uses = [B, ("bin", "add", ("view", "unsigned", B), L(u(2))), ("bin", "shr", ("view", "signed", B), lit(1)),
+            ("view", "bitvector", B), ("un", "inv", B), ("view", "unsigned", B)]
+    bodies = []
+    for i, a in enumerate(uses):
+        for j, b in enumerate(uses):
+            if i != j and ((i < 3 and j < 3) or (i, j) in ((0, 3), (3, 1), (4, 2), (1, 5), (5, 0))):
+                bodies.append(("bin", "cat", a, b))
+    bodies.append(("bin", "cat", uses[0], ("bin", "cat", uses[1], uses[2])))
+    bodies.append(("bin", "cat", uses[2], ("bin", "cat", uses[1], uses[0])))
+    bodies.append(("cmp", ("lt",), (("view", "signed", B), ("view", "signed", B))))
+    for x in xs:
+        for body in bodies:
+            yield "shared", ("shared", x, body)
+
+
 ITER_CONSUMERS = ("reverse", "stretch2", "anycomp", "allstar", "catnot")
 
 
@@ -796,8 +855,12 @@ def depth2(widths, families=None):
 
 def _children(n):
     k = n[0]
-    if k in ("in", "lit", "const"):
+    if k in ("in", "lit", "const", "bound", "null", "full"):
         return []
+    if k == "ifret":
+        return [n[1], n[2], n[3]]
+    if k == "shared":
+        return [n[1], n[2]]
     if k == "bin":
         return [n[2], n[3]]
     if k == "cmp":
@@ -902,6 +965,21 @@ def render(node, leaf, mode="hw", prelude=None):
     statements that have to precede the expression (variable assignment form of conversions)."""
     k = node[0]
     R = lambda n: render(n, leaf, mode, prelude)  # noqa
+    if k == "null":
+        return "Null"
+    if k == "full":
+        return "Full"
+    if k == "ifret":
+        return f"_ret2({R(node[1])}, {R(node[2])}, {R(node[3])})"
+    if k == "bound":
+        return "f_" if mode != "hw" else prelude["bound"]
+    if k == "shared":
+        if mode == "desc":
+            return f"let f_={R(node[1])}: {R(node[2])}"
+        if mode == "py":
+            return f"(lambda f_: {R(node[2])})({R(node[1])})"
+        prelude["bound"] = _pre(prelude, R(node[1]))
+        return R(node[2])
     if k == "iter":
         X = R(node[2])
         return {"reverse": f"std.reverse_bits({X})", "stretch2": f"std.stretch({X}, 2)",
@@ -1050,6 +1128,12 @@ for _k in range(-9, 10):
 
 def _ident(v):
     return v
+
+
+def _ret2(c, a, b):
+    if c:
+        return a
+    return b
 
 
 _TY = {}
